@@ -7,4 +7,9 @@ OPAQUE_LENGTH (Vec3, "V3", 3)
 OPAQUE_LENGTH (Vec4, "V4", 4)
 using namespace IMATH_INTERNAL_NAMESPACE;
 #include "ops_c08.h"
-int main (int argc, char** argv) { return symns::sym_main (argc, argv); }
+#include "c08_modes.h" // extra modes ratwit / rateval / ratargs / ratwith used by tools/props/c08.py; every other mode is sym_main's
+int main (int argc, char** argv)
+{
+    int rc = c08modes::extra_main (argc, argv);
+    return rc >= 0 ? rc : symns::sym_main (argc, argv);
+}
